@@ -29,8 +29,9 @@ type Opt struct {
 	PkgPath        string
 	AfterOp        func()
 	NoSkipConstant bool
-	NoRef          bool // skip the reference side entirely (resource measurements)
-	NoWrite        bool // with NoRef: do not print either (go/printer is quadratic in nesting depth by itself)
+	NoRef          bool                                      // skip the reference side entirely (resource measurements)
+	NoWrite        bool                                      // with NoRef: do not print either (go/printer is quadratic in nesting depth by itself)
+	LoadNamed      func(at *gogen.Package, typ *types.Named) // Config.LoadNamed: named types whose body is supplied on demand
 }
 
 type Diff struct {
@@ -128,6 +129,9 @@ func NewPackage(u *ref.Universe, name string, opt Opt, o *Outcome) *gogen.Packag
 	}
 	if opt.XGo {
 		conf.NewBuiltin = newXGoBuiltin
+	}
+	if opt.LoadNamed != nil {
+		conf.LoadNamed = opt.LoadNamed
 	}
 	path := opt.PkgPath
 	if path == "" {
